@@ -10,6 +10,10 @@ CLAIMED = {
          "Machine-checked proof over the model for all capacities, write sizes, reader counts and interleavings of (atomic) channel operations; the tie to channel.c is a correspondence check run on every invocation.",
          "Trusted: Lean kernel; axioms propext/Quot.sound/Classical.choice only; operations atomic (every body under the channel lock — checked for the real code by the C03 lock-discipline extractor); size_t overflow not modelled; correspondence = differential testing of real channel.c (ASan+UBSan) vs the compiled model.",
          "DESIGN.md section 5, C01"),
+ "C02": ("lean-channel", "Lean 4 theorems over the same channel invariant (write placement never meets a mapped region nor an unconsumed byte; mapped regions stay byte-identical); tie: differential correspondence of real channel.c vs model + per-byte shadow oracle on every region channel_write_map returns",
+         "Machine-checked proof over the model for all reachable states incl. exactly-full and exactly-empty-at-wrap instants; correspondence check on every run.",
+         "Trusted as for C01; additionally the producer is assumed to store only inside the region it was handed (discharged for source.c/filter.c in C05/C10).",
+         "DESIGN.md section 5, C02"),
 }
 PLANNED = {}
 ALL = ["C%02d" % i for i in range(1, 19)]
